@@ -136,8 +136,11 @@ func (w *Worker) snapOf(s *core.VerifSnap, names map[int]string) Snap {
 		}
 		switch c.Kind {
 		case "c":
-			cs := CliSnap{C: nm[2:]}
-			for _, m := range c.InMsgs {
+			cs := CliSnap{C: nm[2:], N: len(c.InMsgs)}
+			for k, m := range c.InMsgs {
+				if k >= 64 {
+					break
+				}
 				cs.Msgs = append(cs.Msgs, MsgSnap{Obj: m.Obj, Done: m.Done, FragDone: m.FragDone, NFrags: m.NFrags})
 			}
 			sn.Cli = append(sn.Cli, cs)
@@ -294,7 +297,7 @@ func (w *Worker) client(name, src string) *Client {
 	if c, ok := w.Clients[name]; ok {
 		return c
 	}
-	c, err := DialClient(name, w.H.Addr, src, w.Cfg.SmallBuf)
+	c, err := DialClient(name, w.H.Addr, src, w.Cfg.BufSize())
 	if err != nil {
 		w.Log.Add(Event{Ev: "openfail", C: name, Txt: err.Error()})
 		return nil
